@@ -34,6 +34,21 @@ P = {
          "Every batch of <=3 operations over a 13-operation alphabet on 4 prior states (exhaustively on in-memory storage; SQLite sampled in quick, full in thorough) plus random batches up to 30 operations is committed through the real Replica and compared with the documented one-at-a-time semantics, the expected unsynced list, the undo/operation counters and the replica invariant; an error injected at each storage call of the commit must leave no trace.",
          "Atomicity fault model is 'a storage call returns an error' (process death is C06). Reference semantics written from docs/src/storage.md.",
          "DESIGN.md §5 C05"),
+ "C06": (True, "E3-fault", "fault_enumeration",
+         "crash injection (error / dropped future / child-process abort() at every storage call, abort() after commit, SIGKILL at random instants) + full-dump comparison through a fresh handle",
+         "Commit, undo, both rebuild modes and sync on a prepared SQLite replica are interrupted at every storage call index in-process and by abort() in a child process (and right after each commit returned); the directory is reopened through a fresh handle and its dump (tasks, unsynced operations, base version, working set, per-task logs) must equal the before-state, the after-state of a fault-free run on a byte copy, or a transaction boundary between. A second workload SIGKILLs a committing child at random instants and compares with the acknowledged commits.",
+         "Process death only (no power loss / torn pages). Sync and undo are two transactions; the state between them is an allowed boundary. Version ids chosen by the on-disk local server are normalised.",
+         "DESIGN.md §5 C06"),
+ "C16": (True, "E4-differential", "exploration",
+         "differential execution of both storage backends through the public StorageTxn trait + contract model + legacy-schema fixtures",
+         "Thousands of contract-respecting transaction scripts over all 20 StorageTxn methods run in lock-step on InMemoryStorage and SqliteStorage (with close/reopen, commit/abandon); every result is compared between the backends and with a contract model that names the wrong side; databases built by plain SQL under the 0.8, 0.9, (0,1) and (0,2) schemas are upgraded and compared with their known content; read-only handles must refuse every modification.",
+         "Collections compared as multisets, errors by class. Read-only handles on not-yet-upgraded legacy databases are only required to refuse modifications.",
+         "DESIGN.md §5 C16"),
+ "C17": (True, "E5-stress", "exploration",
+         "multi-thread / multi-process stress on one SQLite directory + post-hoc audit of per-commit result logs against the stored operation log",
+         "2-8 workers (threads, and child processes in a third of the rounds) with their own handles commit unique-id batches touching shared task rows, undo, rebuild and read concurrently; afterwards a fresh handle audits: every successful commit contiguously present exactly once (or removed whole by a logged successful undo), no trace of failed commits, replay(stored log) == stored tasks, working set exactly the pending set without duplicates, readers only saw states at commit boundaries.",
+         "Schedules are those the OS produces. Workload restricted to operations whose validity cannot be invalidated by other handles (DESIGN §5a). Starts on an initialised directory.",
+         "DESIGN.md §5 C17"),
  "C12": (True, "E1-history", "exploration",
          "runtime monitor: independent snapshot decoder vs chain replay at the Server boundary; scripted urgencies",
          "A harness server scripts the snapshot urgency of every add_version reply, decodes every uploaded snapshot itself (zlib+JSON) and compares it with its own replay of the chain up to that version; checks the urgency threshold; starts fresh replicas from a snapshot with older versions discarded; offers poison snapshots to non-empty replicas. Includes >1MB multi-version syncs, hostile Unicode, thousands of tasks.",
